@@ -38,6 +38,10 @@ def reject_ok(e):
     return not e['k'].startswith('C07|')      # acceptance of the sampled corpus is judged by its owner / by C06
 
 
+# (quick, thorough) number of additional translation units per module built with guard-placed operands only
+GUARDED = {'c01': (8, 40), 'c17': (4, 16), 'c14': (3, 12), 'c03': (3, 12), 'c16': (2, 8), 'c02': (2, 8), 'c10': (1, 6), 'c11': (1, 6), 'c12': (1, 6), 'c13': (1, 4)}
+
+
 def generate(seed, tier):
     quick = tier == 'quick'
     rnd = random.Random(seed * 3001 + 23)
@@ -53,16 +57,46 @@ def generate(seed, tier):
         take = rnd.sample(otus, min(len(otus), 2 if quick else 8))
         for t in take:
             cs = t.cases if len(t.cases) <= (12 if quick else 40) else rnd.sample(t.cases, 12 if quick else 40)
-            tus.append(TU('corpus_' + t.name, cs, headers=t.headers, weight=t.weight, pre=t.pre, only_cfgs=('*asan*', 'gcc.avx2.14.O3') if quick else None))     # sanitizer builds + one optimised build with the allocation monitor armed
+            tus.append(TU('corpus_' + t.name, cs, headers=t.headers, weight=t.weight, pre=t.pre, only_cfgs=('*asan*', 'gcc.avx2.14.O3', '*GUARD*') if quick else None))     # sanitizer builds + one optimised build with the allocation monitor armed + guard-placed operands
+        # hand-written kernels with shape-class-specific remainder code (matmul, tmatmul, transpose/permute, einsum, reductions, element-wise loops,
+        # inverse/LU/solve/QR): a larger sample, built only in the optimised configurations that place every operand flush against guard pages
+        if name in GUARDED:
+            rest = [t for t in otus if t not in take]
+            for t in rnd.sample(rest, min(len(rest), GUARDED[name][0 if quick else 1])):
+                cs = t.cases if len(t.cases) <= (16 if quick else 40) else rnd.sample(t.cases, 16 if quick else 40)
+                tus.append(TU('guarded_' + t.name, cs, headers=t.headers, weight=t.weight, pre=t.pre, only_cfgs=('*GUARD*',)))
     # (P2)-(P4) dedicated
     cases = []
     sizes = [1, 2, 3, 5, 7, 9, 15, 17, 31, 33]
     for i, n in enumerate(sizes):
         for tn, tk in ([TYPES[i % 4], TYPES[(i + 2) % 4]] if quick else TYPES):
             cases.append(Case('C07|map1d|%s|%d' % (tk, n), 'VP_CASE("@KEY@", vp::c07::map1d<%s,%d>);' % (tn, n)))
-    for i, (m, k, n) in enumerate([(1, 1, 1), (3, 3, 3), (5, 3, 7), (2, 9, 17), (7, 5, 15), (9, 2, 33), (17, 3, 5)]):
-        for tn, tk in ([TYPES[i % 4]] if quick else TYPES):
+    for i, (m, k, n) in enumerate([(1, 1, 1), (3, 3, 3), (5, 3, 7), (2, 9, 17), (7, 5, 15), (9, 2, 33), (17, 3, 5), (2, 2, 2), (4, 4, 4), (8, 8, 8), (16, 16, 16)]):
+        for tn, tk in ([TYPES[(i + seed) % 4]] if quick and m != n else TYPES):
             cases.append(Case('C07|map2d|%s|%dx%dx%d' % (tk, m, k, n), 'VP_CASE("@KEY@", vp::c07::map2d<%s,%d,%d,%d>);' % (tn, m, k, n)))
+    # owning tensors placed flush against guard pages: member functions / reductions for every size 1..33 (+ multiples and neighbours of 16),
+    # rank-2 operations over the row/column classes of the small-matrix kernels
+    osz = list(range(1, 34)) + [47, 48, 49, 63, 64, 65]
+    for i, n in enumerate(osz):
+        for tn, tk in ([TYPES[(i + seed) % 4]] if quick else TYPES):
+            cases.append(Case('C07|own1d|%s|%d' % (tk, n), 'VP_CASE("@KEY@", vp::c07::own1d<%s,%d>);' % (tn, n)))
+    sq = [1, 2, 3, 4, 5, 7, 8, 9] + ([] if quick else [6, 10, 12, 16, 17, 32, 33])
+    shapes2 = [(n, n, n) for n in sq]
+    # small-N matmul kernels: one hand-written row-remainder kernel per M mod 10 for N below / up to the vector width
+    smalln = []
+    for m in (1, 2, 3, 4, 5, 6, 7, 8, 9, 10, 11, 17, 27):
+        for n in (1, 2, 3, 5, 6, 7):
+            smalln.append((m, rnd.choice([2, 3, 4, 6, 8]), n))
+        for n in (4, 8, 9, 15, 16, 17, 31):
+            if m != n and (not quick or rnd.random() < 0.22):
+                shapes2.append((m, rnd.choice([1, 2, 3, 4, 5, 8, 9]), n))
+    for i, (m, k, n) in enumerate(shapes2):
+        for tn, tk in ([TYPES[(i + seed) % 2], TYPES[2 + (i + seed) % 2]] if (quick and m != n) else ([TYPES[0], TYPES[1], TYPES[2 + i % 2]] if quick else TYPES)):
+            cases.append(Case('C07|own2d|%s|%dx%dx%d' % (tk, m, k, n), 'VP_CASE("@KEY@", vp::c07::own2d<%s,%d,%d,%d>);' % (tn, m, k, n)))
+    for i, (m, k, n) in enumerate(smalln):
+        for tn, tk in ([TYPES[(i + seed) % 3]] if quick else TYPES):
+            if m != n:
+                cases.append(Case('C07|own2d|%s|%dx%dx%d' % (tk, m, k, n), 'VP_CASE("@KEY@", vp::c07::own2d<%s,%d,%d,%d>);' % (tn, m, k, n)))
     for i, shp in enumerate([(7,), (3, 5), (2, 3, 4), (2, 3, 2, 3), (2, 2, 3, 2, 2), (2, 2, 2, 2, 2, 3)]):
         tn, tk = TYPES[i % 4]
         cases.append(Case('C07|bounds|%s|%s' % (tk, 'x'.join(map(str, shp))),
@@ -74,12 +108,14 @@ def generate(seed, tier):
         cfgs = [Cfg('sse2', '14', 'O1', san='asan'), Cfg('avx2', '14', 'O2', san='asan'), Cfg('avx512', '17', 'O1', san='asan'),
                 Cfg('sse2', '14', 'O2', only_tus='c07_*'), Cfg('avx2', '14', 'O3'), Cfg('avx512', '17', 'O2', only_tus='c07_*'),
                 Cfg('avx2', '14', 'O2', checks=True, only_tus='c07_*')]
+        cfgs += [Cfg(isa, std, 'O2', extra=('-DVP_GUARD_OPERANDS',), only_tus=('corpus_*', 'guarded_*')) for isa, std in (('sse2', '14'), ('avx2', '17'), ('avx512', '14'))]
     else:
         cfgs = [Cfg(isa, '17', 'O1', san='asan') for isa in ('sse2', 'avx2', 'avx512')] + [Cfg('avx2', '14', 'O2', san='asan'), Cfg('avx512', '14', 'O2', san='asan')]
         for isa in ('scalar', 'sse2', 'sse42', 'avx', 'avx2', 'avx512', 'avx512f'):
             cfgs += [Cfg(isa, '14', 'O2'), Cfg(isa, '17', 'O3')]
         cfgs += [Cfg('sse2', '14', 'O2', checks=True, only_tus='c07_*'), Cfg('avx512', '17', 'O2', checks=True, only_tus='c07_*'), Cfg('avx2', '14', 'O1', san='asan', checks=True, only_tus='c07_*')]
         cfgs += [Cfg('avx2', '17', 'O1', san='asan', cxx='clang++', only_tus='c07_*')]
+        cfgs += [Cfg(isa, std, opt, extra=('-DVP_GUARD_OPERANDS',), only_tus=('corpus_*', 'guarded_*')) for isa, std, opt in (('scalar', '14', 'O2'), ('sse2', '14', 'O2'), ('sse42', '17', 'O3'), ('avx', '14', 'O2'), ('avx2', '17', 'O2'), ('avx512', '14', 'O2'), ('avx512f', '17', 'O3'), ('avx2', '14', 'O0'))]
     return tus, cfgs
 
 
